@@ -278,7 +278,13 @@ impl FileSystem for GateFs {
         self.inner.list_dir(path)
     }
     fn open_file(&self, path: &Path) -> std::io::Result<Box<dyn ReadonlyRandomAccessFile>> {
-        self.inner.open_file(path)
+        let r = self.inner.open_file(path);
+        // an opener that has just learnt that there is no database yet (CURRENT missing): what it
+        // does next (initialise a new database) needs the lock
+        if r.is_err() && path.file_name().map(|n| n == "CURRENT").unwrap_or(false) {
+            self.gates.pass("current_missing");
+        }
+        r
     }
     fn rename(&self, from: &Path, to: &Path) -> std::io::Result<()> {
         self.inner.rename(from, to)
@@ -1268,6 +1274,26 @@ impl Run {
                 self.cleanup();
                 return;
             }
+            9 => {
+                // no database yet (destroyed): an open is parked right after it found CURRENT
+                // missing, i.e. before it initialises the new database - it must be holding the
+                // lock by then: another open in the window has to fail and must not be overwritten
+                self.round("gate-open-found-no-current");
+                self.seq_close_all();
+                self.seq_destroy();
+                let h = self.ctx.new_handle();
+                self.gated("g9", "current_missing", false, Job::Open(h), |r| {
+                    r.seq_open();
+                    r.probe_all();
+                    r.listing();
+                });
+                self.listing();
+                self.probe_all();
+                self.intruders();
+                self.probe_all();
+                self.cleanup();
+                return;
+            }
             _ => {
                 // an open that has finished its pre-lock work is parked; a destroy runs up to the
                 // unlink of LOCK; the open continues; the destroy continues
@@ -1482,7 +1508,7 @@ pub fn cmd(m: &HashMap<String, String>) -> i32 {
             // (c) forced schedules, (b) races, interleaved
             let mut plan: Vec<usize> = vec![];
             for _ in 0..gates {
-                plan.extend(0..9usize);
+                plan.extend(0..10usize);
             }
             let mut kinds: Vec<Option<usize>> = plan.into_iter().map(Some).collect();
             kinds.extend((0..rounds).map(|_| None));
